@@ -93,6 +93,8 @@ def r2_threshold(ctx):
             return "T"
         if q.is_call(e, "Iterator::sum") and q.contains(e, lambda x: x[0] == "closure"):
             return "P"
+        if _is_sum_fold(ctx.prog, e) and q.is_call(mir.strip(e[2][0]), "Iterator::map"):
+            return "P"
         return None
     atoms = []
     for e, c, bi in q.cmp_atoms(body):
@@ -102,9 +104,25 @@ def r2_threshold(ctx):
         if "P" in names or "T" in names:
             atoms.append((e, cm[0], d, bi))
     r.check(len(atoms) >= 1, "threshold/present", "a vote-threshold comparison exists", "confirm compares no vote totals: any proof with valid signatures confirms")
+    # sums that saturate (total_votes / votes / the present sum fold with saturating_add) make the ratio meaningless once the total is saturated:
+    # then confirm must refuse (`total == u128::MAX ⇒ None`), otherwise a minority can confirm against a clipped total
+    tvb = ctx.prog.body("tip911_stakeset::StakeSet::total_votes")
+    sat = False
+    for bb_ in [body, tvb] + (ctx.prog.closures_of(tvb) if tvb is not None else []) + ctx.prog.closures_of(body):
+        if bb_ is not None and q.calls_to(bb_, "saturating_add"):
+            sat = True
+    if sat:
+        guard = [a for a in atoms if set(a[2].terms) == {"T"} and abs(a[2].const) == (1 << 128) - 1]
+        r.check(bool(guard), "threshold/saturated-guard", "the vote sums saturate and a saturated total is refused", "the vote sums saturate, but confirm does not refuse a saturated total: "
+                "with more than 2^128 staked, present and total are both clipped and a minority can reach the threshold")
     for e, op, d, bi in atoms:
         where = body.where(bi)
         extra = [k for k in d.terms if k not in ("P", "T")]
+        if not extra and set(d.terms) == {"T"} and abs(d.const) == (1 << 128) - 1 and op in ("Eq", "Ne"):
+            # `total == u128::MAX` (the saturated total): an additional refusal is the safe direction — decide that it is one
+            fs = Forcing(body, lambda x, e=e: (1 if op == "Eq" else 0) if x == e else None)
+            r.check(not any(s_ in fs.reach for s_ in somes), "threshold/saturated-total", "a saturated total confirms nothing", "Some(..) is reachable although the total of the votes is saturated", where)
+            continue
         if extra or d.const != 0:
             r.undecided("threshold/form", "comparison %s is not of the form a·present + b·total ⋗ 0 (%r)" % (sig(e)[:150], d), where)
             continue
@@ -156,6 +174,10 @@ def _floor_on(cm, key, name):
     return False
 
 
+def _is_sum_fold(prog, e):
+    return e[0] == "call" and e[1].split("::")[-1] == "fold" and len(e[2]) == 3 and q.const_val(e[2][1]) == 0 and q.is_add_op(prog, e[2][2])
+
+
 def r3_sources(ctx):
     r = ctx.rule("R3", "epoch = self.0.height.epoch(); total = total_votes(self.0.stakes, epoch); present = Σ_{k ∈ proof keys} votes(self.0.stakes, epoch, k); result = {state: self, cproof}")
     body = ctx.body(FN, r)
@@ -166,10 +188,12 @@ def r3_sources(ctx):
         e = body.rec_call(t, bi)
         r.check(sig(e) == "StakeSet::total_votes($1.0.stakes, %s)" % EP, "total/args", "total = %s" % sig(e), "total = %s" % sig(e), body.where(bi))
     sums = [(bi, t) for bi, t in q.calls_to(body, "Iterator::sum")]
+    # `.sum()` or a fold from 0 whose step is an addition (`|a, b| a.saturating_add(b)`)
+    sums += [(bi, t) for bi, t in q.calls_to(body, "Iterator::fold") if _is_sum_fold(ctx.prog, body.rec_call(t, bi))]
     r.check(len(sums) == 1, "present/sum", "present votes are a sum", "%d sums" % len(sums))
     for bi, t in sums:
         e = body.rec_call(t, bi)
-        inner = e[2][0]
+        inner = mir.strip(e[2][0])
         ok = q.is_call(inner, "Iterator::map") and sig(inner[2][0]) in ("BTreeMap::keys($2)", "BTreeMap::iter($2)") and inner[2][1][0] == "closure"
         r.check(ok, "present/over-proof-keys", "summed over the proof's keys", "summed over %s" % sig(inner), body.where(bi))
         if ok:
